@@ -181,7 +181,7 @@ def gen_c12(r, tier, info):
     std = info.get("std") == "1"
     n = 150 if tier == "quick" else 3000
     return [gen.adapters(r, sels, force=True, std=std) for _ in range(n)] + [gen.builders(r) for _ in range(n // 3)] + \
-        [gen.provided(r, sels, info, force=True, std=std) for _ in range(n // 2)]
+        [gen.provided(r, sels, info, force=True, std=std) for _ in range(n // 2)] + [gen.shared_builders(r, info) for _ in range(n // 6)]
 
 
 # ---- C13 ---------------------------------------------------------------------------------------
@@ -203,7 +203,8 @@ def gen_c14(r, tier, info):
 def gen_c15(r, tier, info):
     sels = sels_for(info)
     n = 100 if tier == "quick" else 2500
-    return [gen.interleave(r, sels, nh=r.randrange(2, 7), force=True) for _ in range(n)] + [gen.builders(r) for _ in range(n // 2)]
+    return [gen.interleave(r, sels, nh=r.randrange(2, 7), force=True) for _ in range(n)] + [gen.builders(r) for _ in range(n // 2)] + \
+        [gen.shared_builders(r, info) for _ in range(n // 4)]
 
 
 # ---- C10 ---------------------------------------------------------------------------------------
